@@ -186,6 +186,13 @@ def xDBLMULgen (nbits : Nat) (bound : Option Nat) (k l : Nat) (P Q PQ : EcPoint 
 def xDBLMUL (nbits k l : Nat) (P Q PQ : EcPoint F) (curve : EcCurve F) : EcPoint F :=
   xDBLMULgen nbits none k l P Q PQ curve
 
+/-- `ec_biscalar_mul_bounded(res, curve, k, l, PQ, f)` (after fix 76cbdb3): a zero scalar is replaced by `2^f`, then
+    `xDBLMUL_bounded(…, f)`, whose main loop is applied for the indices `≤ f + 2 + (BITS - TORSION_PLUS_EVEN_POWER)` -/
+def biscalarMulBounded (nbits tpe f k l : Nat) (P Q PQ : EcPoint F) (curve : EcCurve F) : EcPoint F :=
+  let k' := if k % 2 ^ nbits = 0 then 2 ^ f else k
+  let l' := if l % 2 ^ nbits = 0 then 2 ^ f else l
+  xDBLMULgen nbits (some (f + 2 + (nbits - tpe))) k' l' P Q PQ curve
+
 /-! ### Jacobian double-scalar multiplication (DBLMUL, DBLMUL2, DBLMUL_generic) and op sequences -/
 
 /-- one iteration of the DBLMUL loops: `R ← 2R`, then add `P+Q`, `P` or `Q` according to the two bits -/
